@@ -463,7 +463,7 @@ func init() {
 	}
 	libSpecs[ctxM+"BlockTime"] = func(c *callCtx) Val {
 		e := c.e()
-		e.vc.declFun("ctx_time", []string{e.vc.sortOf(c.args[0].T)}, "Int")
+		e.declCtxTime(e.vc.sortOf(c.args[0].T))
 		return c.ret(app("ctx_time", c.args[0].S))
 	}
 	libSpecs[ctxM+"Logger"] = func(c *callCtx) Val { return c.fr.pureHavoc(c) }
